@@ -47,6 +47,7 @@ def battery(variant, extra_norms=(), extra_vectors=()):
     out.append(('s2 carries the excess over the bound', [100], sq, None))
     out.append(('large s2 only', [-3000, 2000, 1], [0], None))
     out.append(('undecodable compressed part', [1], [1], 'garbage'))
+    out.append(('norm far above the bound (every s1 coefficient = 6000)', [1], [6000 if i % 2 else -6000 for i in range(variant)], None))
     return out
 
 
@@ -78,7 +79,7 @@ def differential(rep, variant, cands, key, what, stop_after_first=True, need_pan
 
 def check(tier):
     rep = Report('C02', tier)
-    rep.functions = ['falcon::verify::<N> and its five closures (N in {1,2,4})', 'FalconVariant::parameters (real sig_bound constants)', 'Felt::{new,balanced_value,value}',
+    rep.functions = ['(composed lemmas, re-run here) encoding::{compress,decompress}, polynomial::hash_to_point, NTT tables and generic butterflies', 'falcon::verify::<N> and its five closures (N in {1,2,4})', 'FalconVariant::parameters (real sig_bound constants)', 'Felt::{new,balanced_value,value}',
                      'encoding::decompress (real, in the `real` scenarios)']
     rep.bounds = ['toy degrees N in {1,2,4} with the real Falcon-512 and Falcon-1024 parameter sets (from_n overridden); all c, h in Z_q^N, all s2 with |s2_i| < 12160, all salts/messages',
                   'real decompress composed in for (N,L) in {(1,3),(1,4)} quick; + (1,6),(2,3),(2,4),(2,5),(4,5) thorough, signature bytes fully symbolic',
@@ -126,7 +127,20 @@ def check(tier):
                 confirmed.add((key, variant))
             else:
                 rep.note_inconclusive('violable assertion in verify not reproduced natively: %s at %s (model %s)' % (p['msg'], p['site'], p['model']))
-    rep.extra['mir_hashes'] = hashes
+    rep.extra.setdefault('mir_hashes', {}).update(hashes)
+    # the boundary witnesses of the solver (norm = bound-1, bound, bound+1) as real Falcon-512/1024 triples through the real verify
+    for variant in (512, 1024):
+        key = 'verify:acceptance-boundary'
+        if (key, variant) not in confirmed:
+            differential(rep, variant, battery(variant)[:3], key, 'boundary witnesses replayed natively')
+    # the lemmas the composition rests on are re-checked here as part of C02 (so that a breakage of verify that lives in the
+    # decoder, the hash or the NTT tables is reported under this property too): C07 (decode), C14 (HashToPoint), C11 tables + small transforms
+    from . import c07, c14, c11
+    rep.parts['composed'] = ['C07 decompress/compress scenarios', 'C14 hash_to_point scenarios', 'C11 Kani table harnesses + engine S (quick bounds)']
+    c07.run(rep, tier)
+    c14.run(rep, tier)
+    c11.run_kani(rep, c11.KANI, c11.decode_table_failure)
+    c11.run_s(rep, 'quick')
     if rep.violations and all('not reproduced' in x for x in rep.inconclusive):
         rep.inconclusive = []
     return rep.finish()
